@@ -593,8 +593,12 @@ def _terminators(w: World, rep: Report, fi, endtok: str):
     # the index variable is the one the loop condition compares with len(symbols); the current
     # symbol is the local assigned symbols[index] at the top of the body
     idx_var = None
-    if isinstance(lp.test, ast.Compare) and isinstance(lp.test.left, ast.Name):
-        idx_var = lp.test.left.id
+    if isinstance(lp.test, ast.Compare) and len(lp.test.ops) == 1:
+        # `index < len(symbols)` / `index <= stop` or the same comparison written the other way round
+        if isinstance(lp.test.left, ast.Name) and isinstance(lp.test.ops[0], (ast.Lt, ast.LtE)):
+            idx_var = lp.test.left.id
+        elif isinstance(lp.test.comparators[0], ast.Name) and isinstance(lp.test.ops[0], (ast.Gt, ast.GtE)):
+            idx_var = lp.test.comparators[0].id
     cur_var = None
     for st in lp.body:
         if isinstance(st, ast.Assign) and isinstance(st.targets[0], ast.Name) and isinstance(st.value, ast.Subscript) \
@@ -753,24 +757,35 @@ def _push_partition(w: World, rep: Report):
               why='' if ok else 'sizes outside [1, 65535] are not rejected with an error')
     # opcode selection in parse_next: len(args) < 2 -> PUSH0, len(args[0]) == 1 -> PUSH1, == 2 -> PUSH2
     pn = w.repo.func('parsing', 'parse_next')
-    sel = {}
-    for n in ast.walk(pn.node):
-        if isinstance(n, ast.If):
-            node = n
-            while isinstance(node, ast.If):
-                t = ast.unparse(node.test).replace(' ', '')
-                for x in ast.walk(ast.Module(body=node.body, type_ignores=[])):
-                    if isinstance(x, ast.Subscript) and isinstance(x.value, ast.Name) and x.value.id == 'opcodes_inverse' \
-                            and isinstance(x.slice, ast.Constant) and str(x.slice.value).startswith('OP_PUSH'):
-                        sel[t] = x.slice.value
-                node = node.orelse[0] if len(node.orelse) == 1 and isinstance(node.orelse[0], ast.If) else None
     aname = 'args'
     for n in ast.walk(pn.node):
         if isinstance(n, ast.Assign) and isinstance(n.value, ast.Call) and dotted(n.value.func) == 'get_args' and \
                 isinstance(n.targets[0], ast.Tuple) and len(n.targets[0].elts) == 2:
             aname = n.targets[0].elts[1].id
-    want_sel = {f'len({aname})<2': 'OP_PUSH0', f'len({aname}[0])==1': 'OP_PUSH1', f'len({aname}[0])==2': 'OP_PUSH2'}
-    ok = all(sel.get(k) == v for k, v in want_sel.items())
+    # on every path to the statement that emits OP_PUSHk the selecting condition holds (CFG conditions, so the
+    # if/else orientation, `not`, and the side a comparison is written on do not matter)
+    pcfg2 = w.cfg(pn)
+    want_sel = {'OP_PUSH0': f'len({aname}) < 2', 'OP_PUSH1': f'len({aname}[0]) == 1', 'OP_PUSH2': f'len({aname}[0]) == 2'}
+    sel = {}
+    for nd in pcfg2.nodes:
+        if nd.ast is None or nd.kind != 'stmt':
+            continue
+        for x in ast.walk(nd.ast):
+            if isinstance(x, ast.Subscript) and isinstance(x.value, ast.Name) and x.value.id == 'opcodes_inverse' \
+                    and isinstance(x.slice, ast.Constant) and str(x.slice.value) in want_sel:
+                op = x.slice.value
+                want_f = L.formula(ast.parse(want_sel[op], mode='eval').body)
+                hit = False
+                for t, pol in pcfg2.dominating_conditions(nd):
+                    try:
+                        f = L.formula(t.ast)
+                    except Exception:
+                        continue
+                    f = f if pol else L.f_not(f)
+                    if L.equivalent(f, want_f)[0]:
+                        hit = True
+                sel[op] = sel.get(op, True) and hit
+    ok = set(sel) == set(want_sel) and all(sel.values())
     rep.check('C11.R4', 'parsing.parse_next|push-opcode-selection', ok, file=RELP, line=pn.node.lineno,
               why='' if ok else f'PUSH opcode selection is {sel}, expected {want_sel}')
 
@@ -885,8 +900,13 @@ def _compile_entry(w: World, rep: Report):
     am = w.repo.func('parsing', 'assemble')
     txt = [ast.unparse(n).replace(' ', '') for n in am.node.body]
     loops = [n for n in am.node.body if isinstance(n, ast.While)]
-    ivar = loops[0].test.left.id if loops and isinstance(loops[0].test, ast.Compare) and \
-        isinstance(loops[0].test.left, ast.Name) else None
+    ivar = None
+    if loops and isinstance(loops[0].test, ast.Compare) and len(loops[0].test.ops) == 1:
+        lt = loops[0].test
+        if isinstance(lt.left, ast.Name) and isinstance(lt.ops[0], (ast.Lt, ast.LtE)):
+            ivar = lt.left.id
+        elif isinstance(lt.comparators[0], ast.Name) and isinstance(lt.ops[0], (ast.Gt, ast.GtE)):
+            ivar = lt.comparators[0].id
     idx0 = ivar is not None and f'{ivar}=0' in txt
     pc = [n for n in ast.walk(am.node) if isinstance(n, ast.Assign) and isinstance(n.value, ast.Call)
           and dotted(n.value.func) == 'parse_comptime']
